@@ -1,6 +1,6 @@
 (* C08 proofs, part 5: BorrowAlternate, the interest / reward messages, one message, histories. *)
 From Comdex Require Import Lib.Base Lib.DecArith Model.Lend Proofs.LendProofs Proofs.LendProofsInv Proofs.LendProofsSide
-     Proofs.LendProofsSteps Proofs.LendProofsSteps2 Proofs.LendProofsLiq.
+     Proofs.LendProofsSteps Proofs.LendProofsSteps2 Proofs.LendProofsLiq Proofs.LendProofsClose.
 From Coq Require Import ZifyBool.
 
 Section Hist.
@@ -88,6 +88,11 @@ Section Hist.
     - destruct (calc_all_good _ _ _ _ _ HG H). tauto.
     - injection H as <-. split; [exact HG|discriminate].
     - destruct (hand_over_good _ _ _ _ _ _ HG Hkf H). tauto.
+    - destruct (auc_bid_good _ _ _ _ _ HG H). tauto.
+    - destruct (auc_close_good _ _ _ _ _ _ _ HG H). tauto.
+    - destruct (repay_withdraw_good _ _ _ _ _ _ _ HG H). tauto.
+    - destruct (fund_mod_good _ _ _ _ _ _ _ _ HG H). tauto.
+    - destruct (fund_reserve_good _ _ _ _ _ _ _ HG H). tauto.
   Qed.
 
   Lemma apply_op_good st o : Good cfg st -> kf_C08_2 st o = false -> Good cfg (apply_op cfg st o).
